@@ -116,8 +116,8 @@ CLAIMED = {
               '(six operators, year specifier or date literal) and line value, matches(simplify(T), v) equals the '
               'Boolean/comparison reference with the line value as left operand, and free_dexpr releases no node twice.'),
         note=('flex/bison front end not encoded (trees built as the grammar builds them); calloc/free replaced by a typed '
-              'node pool; the two unions of dexpr.h declared as structs for the solver only (real layout in replay); '
-              'four defects found and fixed'),
+              'node pool; the two unions of dexpr.h declared as structs for the solver only (real layout in replay); the action of '
+              'the grammar for negation is taken as text from src/dexpr-parser.y; five defects found and fixed'),
         technique='CBMC bounded model checking per expression tree (program enumerated, inputs symbolic)',
         design='3/C17'),
     'C16': dict(
